@@ -308,6 +308,7 @@ func validateBatch(c *core.Ctx, st *c38State, drvPath string, br *batchResult) e
 		}
 		c.Add("states", v.States)
 		c.Add("transitions", v.Gen)
+		c.Logf("trace validation %s: %d scenarios, %d events, %d states, accepted=%v", br.env.name(), len(br.events)-len(skip), v.Total, v.States, v.OK)
 		if v.InvError != "" {
 			return fmt.Errorf("a model invariant failed while explaining a recorded trace (spec error?):\n%s", v.InvError)
 		}
@@ -533,7 +534,7 @@ func runC38(c *core.Ctx) error {
 		{name: "proxy", calls: []int{1, 2, 3}, nc1: 3, workers: 2, memLimit: 3, proxy: 2, ff: []int{2, 3}, cancel: []int{1}, outs: allOuts, orphans: true},
 		{name: "shutdown", calls: []int{1, 2, 3}, nc1: 2, workers: 2, memLimit: 3, closes: 1, cancel: []int{1, 2}, outs: allOuts, shutdown: true, orphans: true},
 	}
-	perProfile := c.Pick(6, 60)
+	perProfile := c.Pick(5, 60)
 	shapes := make([][]scenario, len(profiles))
 	for pi, p := range profiles {
 		pi, p := pi, p
